@@ -5,9 +5,10 @@ T = "RsslVerif.Thm.C02."
 TS = "RsslVerif.Thm.C02Sem."
 TV = "RsslVerif.Thm.C02Vec."
 VEC_THEOREMS = ["msl_exporter_vec_shape_as_modelled", "msl_swizzle_letters_are_identity", "msl_vector_type_names_roundtrip",
-                "vec1_is_named_as_scalar", "vec_shape_sound", "gen_sem_msl_vec_expr", "gen_sem_msl_vec_assign", "literal_vector_cast_panics_msl",
+                "vec1_is_named_as_scalar", "vec_shape_sound", "gen_sem_msl_vec_expr", "gen_sem_msl_vec_assign", "msl_vector_op_literal_in_concrete_type",
+                "literal_vector_cast_panics_msl",
                 "mulMV_toMetal", "ctor_from_scalars_transposes", "metal_subscript_is_a_column", "narrowing_to_vec1_is_not_metal"]
-SEM_THEOREMS = ["msl_exporter_shape_as_modelled", "msl_op_table_is_identity", "msl_literal_arms_same_as_hlsl", "msl_genLiteral_eq",
+SEM_THEOREMS = ["msl_exporter_shape_as_modelled", "msl_op_table_is_identity", "msl_literal_arms_same_as_hlsl", "msl_genLiteral_eq", "msl_literal_never_panics",
                 "gen_sem_expr", "gen_sem_expr_plain", "gen_sem_args", "gen_sem_stmt", "gen_sem_stmts", "gen_sem_func",
                 "trampoline_copy_semantics", "gen_sem_program", "ir_frame", "gen_sem_signatures",
                 "int_min_literal_changes_meaning", "literal_arithmetic_changes_meaning", "inout_copy_in_order_changes_meaning"]
@@ -249,7 +250,10 @@ SPEC = {
                   "typed copy-in/copy-out call at every depth, under the semantic precondition that functions with out "
                   "parameters do not depend on their entry value). Outside the side conditions the statement is false on the current code: "
                   "negations with witnesses (INT_MIN / literal arithmetic typed long/int in Metal; inout copy-in after "
-                  "later arguments), both replayed on the real exporter as known findings. Vector layer (Thm/C02Vec): for the "
+                  "later arguments), both replayed on the real exporter as known findings. The Metal generate_literal never "
+                  "panics on a modelled constant (msl_literal_never_panics: an IntLiteral beyond +-u64::MAX is the export error "
+                  "IntLiteralOutOfRange since fix 6017bad) and is arm for arm the HLSL one except for Float64, which Metal refuses "
+                  "with UnsupportedDouble since fix 9824ce3 (msl_literal_arms_same_as_hlsl). Vector layer (Thm/C02Vec): for the "
                   "model Model/GenMslVec of the Cast (with try_implicit_truncate), Swizzle (vector and scalar halves), Constructor, "
                   "vector-type-name and component-wise operator arms (text of every arm re-extracted: Gen.MslVecTables) "
                   "gen_sem_msl_vec_expr proves by induction, re-using the scalar gen_sem_expr at the leaves, that the emitted "
@@ -260,7 +264,11 @@ SPEC = {
                   "static shape) discharges the static decisions; gen_sem_msl_vec_assign covers statement-level assignment and "
                   "compound assignment to vector variables and swizzles; mulMV_toMetal proves that on the exporter's matrix "
                   "correspondence (floatRxC |-> metal::floatCxR, the same logical matrix by columns) Metal's M*v is RSSL's "
-                  "mul(M,v); negation witnesses: the matrix constructor keeps row-major argument order (transposed matrix), "
+                  "mul(M,v); a vector operation with a literal operand (`boolvec + 1`, `intvec * 1.5`, `c ? v : 1.5`), typed in "
+                  "the concrete vector type since fixes 40c6233 / c05bffa (before: a panic of the exporter, two known findings, now "
+                  "fixed records), is proved exported with its meaning kept (msl_vector_op_literal_in_concrete_type, instances of "
+                  "gen_sem_msl_vec_expr through the extended side condition VOk.litOperandOK); "
+                  "negation witnesses: the matrix constructor keeps row-major argument order (transposed matrix), "
                   "(float1)v is emitted as an ill-typed (float)v. Matrices, structs, arrays, enums, methods, calls with vector "
                   "arguments are covered by the correspondence streams only.",
     "trusted_base": [
@@ -277,7 +285,9 @@ SPEC = {
         "generate_scalar_type and exact-text facts about every modelled arm of generate_expression, generate_statement, "
         "generate_scope_block, generate_for_init, generate_variable_definition, generate_user_call, "
         "generate_function_param, generate_function_inner, generate_function_and_trampoline, "
-        "generate_function_out_trampoline_body (an edit of any of them flips a fact and msl_exporter_shape_as_modelled stops checking)",
+        "generate_function_out_trampoline_body (an edit of any of them flips a fact and msl_exporter_shape_as_modelled stops checking); "
+        "a `return Err(GenerateError::e)` arm of generate_literal is the table entry `.errs e`, which the model answers as the "
+        "exporter's diagnostic (Except.error (.diag e)), never as a panic",
         "Spec/SemMsl.lean: our reading of Metal (C++14): an unsuffixed integer literal is int below 2^31, else a 64-bit long; "
         "unsuffixed and f-suffixed floating literals are float; bool is promoted to int before arithmetic / bitwise / "
         "relational operators; int,uint -> uint, anything with long -> long, anything with float -> float; a shift has the "
@@ -327,7 +337,10 @@ SPEC = {
         "trampoline has no `return e;`",
         "vector layer, side conditions of gen_sem_msl_vec_expr / _assign (Spec/SemMslVec VOk.okMV, placeOKM): types are "
         "bool/int/uint/float scalars or 2-4 component vectors (no float1: emitted as the scalar, known finding for the cast; "
-        "no literal kinds: vectors of literal types panic, known finding); no widening vector casts; unary - + ~ and binary "
+        "no literal kinds: since fixes 40c6233 / c05bffa the type checker no longer computes in vectors of a literal type — the "
+        "two panic findings are fixed records — and the literal operand it now converts to the concrete type, `(int3)1`, "
+        "`(float3)1.5`, is inside the side conditions for integer literals of magnitude below 2^31 and floating literals "
+        "converted to a float kind: VOk.litOperandOK, msl_vector_op_literal_in_concrete_type); no widening vector casts; unary - + ~ and binary "
         "arithmetic / bitwise / relational operators on *scalar* operands need int/uint/float (bool scalars are promoted in "
         "C++: oracle only); scalar leaves satisfy the scalar side conditions and are not the bare Int32(i32::MIN); vector "
         "variables are in scope under their emitted names (C15) and hold values of their declared shape (vec_shape_sound "
